@@ -162,6 +162,37 @@ def replay(cases_path, zerv_bin, report_path):
         if direct.returncode != 0 or ret != direct.stdout.strip():
             mismatches.append({"key": "C18:return-value", "call": "version(source='stdin', stdin=<ron>, output_format=%r)" % of,
                                "expected": direct.stdout.strip()[:300], "observed": ret[:300]})
+    # stdin together with another source: the wrapper hands both on unchanged, so the result is what the
+    # same command line gives with the same stdin (only `-s stdin` reads it)
+    import os
+    import tempfile
+    tmp = tempfile.mkdtemp(prefix="zv-c18-")
+    genv = dict(os.environ, GIT_CONFIG_GLOBAL="/dev/null", GIT_CONFIG_NOSYSTEM="1", GIT_AUTHOR_NAME="zv", GIT_AUTHOR_EMAIL="zv@example.invalid",
+                GIT_COMMITTER_NAME="zv", GIT_COMMITTER_EMAIL="zv@example.invalid")
+    for cmd in (["init", "-q", "-b", "main"], ["commit", "-q", "--allow-empty", "-m", "c1"], ["tag", "v1.2.3"]):
+        subprocess.run(["git"] + cmd, cwd=tmp, env=genv, check=True, stdin=subprocess.DEVNULL, capture_output=True)
+    combos = [({"source": "none", "tag_version": "1.2.3"}, ["version", "-s", "none", "--tag-version", "1.2.3"]),
+              ({"source": "git", "repo_path": tmp}, ["version", "-s", "git", "-C", tmp]),
+              ({"repo_path": tmp, "source": "git", "output_format": "pep440"}, ["version", "-s", "git", "-C", tmp, "--output-format", "pep440"]),
+              ({"source": "stdin", "major": 9}, ["version", "-s", "stdin", "--major", "9"])]
+    for kw, argv in combos:
+        for doc in (ron, "   \n", ""):
+            n += 1
+            nontrivial += 1
+            direct = subprocess.run([zerv_bin] + argv, input=doc, capture_output=True, text=True)
+            try:
+                ret, raised = zerv.version(stdin=doc, **kw), False
+            except RuntimeError:
+                ret, raised = None, True
+            except Exception as e:  # noqa: BLE001
+                ret, raised = "<exception %r>" % e, False
+            ok = raised if direct.returncode != 0 else (not raised and ret == direct.stdout.strip())
+            if not ok:
+                mismatches.append({"key": "C18:return-value", "call": "version(stdin=%r, **%r)" % (doc[:20], kw), "argv": argv,
+                                   "expected": ("raises" if direct.returncode != 0 else direct.stdout.strip()[:300]),
+                                   "observed": "raised" if raised else ret[:300]})
+    import shutil
+    shutil.rmtree(tmp, ignore_errors=True)
     for fn, pos, kw in must_fail:
         n += 1
         try:
